@@ -15,7 +15,11 @@
 //!    contain one frame the codec or the demuxer must reject (reserved subframe type, reserved
 //!    sample-size code, wasted-bits flag, CRC-16 / CRC-8 mismatch with everything else consistent)
 //!    or that are cut inside a frame, for every frame index: error value or the valid prefix,
-//!    never later audio moved up.
+//!    never later audio moved up;
+//!  * TERMINATION: truncated files (WAV with stale length fields, cut / damaged FLAC) streamed to the
+//!    end: after the valid prefix the sound must reach Stopped by itself (end or a poppable error)
+//!    within bounded time -- silence for ever is a hang -- and the decoder (observed through the
+//!    drop of the bytes it owns) must be released once handle and manager are dropped.
 use crate::backend::*;
 use crate::util::*;
 use kira::sound::static_sound::StaticSoundData;
@@ -480,6 +484,43 @@ pub struct Played {
 	pub error: Option<String>,
 	pub stopped: bool,
 	pub hang: bool,
+	/// termination monitor (only with an idle limit): nothing but silence came out for longer than
+	/// the limit although the sound was not Stopped
+	pub idle_timeout: bool,
+	/// the media source (hence the decoder and its thread) was dropped within 2 s of the handle and
+	/// the manager being dropped
+	pub released: bool,
+	/// process CPU time (ms) consumed while waiting for that release, and the wall time (ms) waited
+	pub wait_cpu_ms: u64,
+	pub wait_wall_ms: u64,
+}
+/// the bytes of the file, owned by the decoder: dropping them = the decoder (and the thread that
+/// owns it) has been released
+struct Tracked(Vec<u8>, std::sync::Arc<std::sync::atomic::AtomicBool>);
+impl AsRef<[u8]> for Tracked {
+	fn as_ref(&self) -> &[u8] {
+		&self.0
+	}
+}
+impl Drop for Tracked {
+	fn drop(&mut self) {
+		self.1.store(true, std::sync::atomic::Ordering::SeqCst);
+	}
+}
+/// user + system CPU time of this process in ms (Linux; 0 if unavailable)
+fn process_cpu_ms() -> u64 {
+	let t = match std::fs::read_to_string("/proc/self/stat") {
+		Ok(t) => t,
+		Err(_) => return 0,
+	};
+	let rest = match t.rfind(')') {
+		Some(i) => &t[i + 1..],
+		None => return 0,
+	};
+	let f: Vec<&str> = rest.split_whitespace().collect();
+	// after the command name: state is field 0, utime field 11, stime field 12 (clock ticks of 10 ms)
+	let g = |i: usize| f.get(i).and_then(|x| x.parse::<u64>().ok()).unwrap_or(0);
+	(g(11) + g(12)) * 10
 }
 const CH: usize = 64;
 fn canon(x: f32) -> u32 {
@@ -494,11 +535,19 @@ fn canon(x: f32) -> u32 {
 /// `start`, issuing `seeks[k] = (after this many rendered frames, target index)`; renders until
 /// the sound stops or `max_frames` were rendered (then the sound is stopped).
 pub fn stream_play(bytes: &[u8], sr: u32, start: usize, seeks: &[(usize, usize)], max_frames: usize) -> Played {
+	stream_play_ex(bytes, sr, start, seeks, max_frames, None)
+}
+/// With `idle_limit`: the TERMINATION monitor's run.  Rendering goes on until the sound is Stopped
+/// by itself, or until nothing but silence has come out for `idle_limit` of wall time (the
+/// harness renders far faster than a device, so by then the data has long run out); afterwards
+/// the handle and the manager are dropped and the decoder must be released within 2 s.
+pub fn stream_play_ex(bytes: &[u8], sr: u32, start: usize, seeks: &[(usize, usize)], max_frames: usize, idle_limit: Option<Duration>) -> Played {
 	let b = bytes.to_vec();
 	let seeks = seeks.to_vec();
 	let r = with_watchdog(60, move || {
-		let mut p = Played { open: Load::Hang, num_frames: 0, out: vec![], issued_at: vec![], error: None, stopped: false, hang: false };
-		let data = match StreamingSoundData::from_cursor(Cursor::new(b)) {
+		let mut p = Played { open: Load::Hang, num_frames: 0, out: vec![], issued_at: vec![], error: None, stopped: false, hang: false, idle_timeout: false, released: true, wait_cpu_ms: 0, wait_wall_ms: 0 };
+		let dropped = std::sync::Arc::new(std::sync::atomic::AtomicBool::new(false));
+		let data = match StreamingSoundData::from_cursor(Cursor::new(Tracked(b, dropped.clone()))) {
 			Ok(d) => d,
 			Err(e) => {
 				p.open = classify_err(e);
@@ -525,6 +574,7 @@ pub fn stream_play(bytes: &[u8], sr: u32, start: usize, seeks: &[(usize, usize)]
 		let mut next_seek = 0;
 		let mut zero_run = 0u32;
 		let mut since_pause = 0usize;
+		let mut last_sound = Instant::now();
 		loop {
 			// the harness renders much faster than a device would; give the decoder thread (which
 			// sleeps 1 ms whenever its 16384-frame ring is full) time to keep ahead
@@ -550,6 +600,15 @@ pub fn stream_play(bytes: &[u8], sr: u32, start: usize, seeks: &[(usize, usize)]
 			if h.state() == PlaybackState::Stopped {
 				p.stopped = true;
 				break;
+			}
+			if !all_zero {
+				last_sound = Instant::now();
+			}
+			if let Some(l) = idle_limit {
+				if last_sound.elapsed() > l {
+					p.idle_timeout = true;
+					break;
+				}
 			}
 			if all_zero {
 				// either silence in the audio or the decoder thread has not caught up: give it time
@@ -584,12 +643,25 @@ pub fn stream_play(bytes: &[u8], sr: u32, start: usize, seeks: &[(usize, usize)]
 			p.error = Some(format!("{}", e));
 		}
 		std::thread::sleep(Duration::from_millis(2)); // let the decoder thread see Stopped
+		if idle_limit.is_some() {
+			// release: with the handle and the manager gone the decoder thread must end and drop the decoder
+			let cpu0 = process_cpu_ms();
+			let w0 = Instant::now();
+			drop(h);
+			drop(m);
+			while !dropped.load(std::sync::atomic::Ordering::SeqCst) && w0.elapsed() < Duration::from_secs(2) {
+				std::thread::sleep(Duration::from_millis(5));
+			}
+			p.released = dropped.load(std::sync::atomic::Ordering::SeqCst);
+			p.wait_wall_ms = w0.elapsed().as_millis() as u64;
+			p.wait_cpu_ms = process_cpu_ms().saturating_sub(cpu0);
+		}
 		p
 	});
 	match r {
 		Some(Ok(p)) => p,
-		Some(Err(m)) => Played { open: Load::Panic(m), num_frames: 0, out: vec![], issued_at: vec![], error: None, stopped: false, hang: false },
-		None => Played { open: Load::Hang, num_frames: 0, out: vec![], issued_at: vec![], error: None, stopped: false, hang: true },
+		Some(Err(m)) => Played { open: Load::Panic(m), num_frames: 0, out: vec![], issued_at: vec![], error: None, stopped: false, hang: false, idle_timeout: false, released: true, wait_cpu_ms: 0, wait_wall_ms: 0 },
+		None => Played { open: Load::Hang, num_frames: 0, out: vec![], issued_at: vec![], error: None, stopped: false, hang: true, idle_timeout: false, released: true, wait_cpu_ms: 0, wait_wall_ms: 0 },
 	}
 }
 
@@ -1101,6 +1173,68 @@ fn report_class(s: &mut Session, desc: String, what: String, class: &str) {
 	}
 }
 
+static TERMINATION_FAILURES: std::sync::atomic::AtomicU32 = std::sync::atomic::AtomicU32::new(0);
+/// TERMINATION monitor for a file whose data runs out before the announced end (or that is
+/// damaged): once the valid audio has been heard, the sound must reach Stopped by itself (natural
+/// end, or a decoder error that can be popped from the handle) -- silence for ever is a hang --
+/// and the decoder must be released once handle and manager are gone.  What was heard must be a
+/// prefix of `valid`.  `class`: known-finding class of a non-termination, if any.
+fn check_termination(s: &mut Session, desc: String, bytes: &[u8], sr: u32, valid: &[(f32, f32)], loaded: &str, class: Option<&'static str>, class_prefix: Option<&'static str>) {
+	// (a case of a known class that is expected not to terminate gets a shorter wait)
+	let idle = if class.is_some() { 1 } else { 3 };
+	use std::sync::atomic::Ordering;
+	if TERMINATION_FAILURES.load(Ordering::SeqCst) >= 3 {
+		// every failure leaves a spinning decoder thread behind: three failing inputs are enough
+		s.count("stream_termination_skipped_after_3_failures");
+		return;
+	}
+	let p = stream_play_ex(bytes, sr, 0, &[], usize::MAX, Some(Duration::from_secs(idle)));
+	s.eval_only("stream_termination");
+	let fail = |s: &mut Session, what: String, class: Option<&'static str>| match class {
+		Some(c) => report_class(s, desc.clone(), what, c),
+		None => s.fail(desc.clone(), what, None),
+	};
+	if matches!(p.open, Load::Panic(_) | Load::Hang) || p.hang {
+		fail(s, format!("streaming gave {}{} (loading: {})", p.open.short(), if p.hang { " / playback did not finish within the watchdog time" } else { "" }, loaded), class);
+		return;
+	}
+	if !matches!(p.open, Load::Ok { .. }) {
+		return; // an error value
+	}
+	if let Err(e) = match_stream(valid, 0, &[], &p) {
+		fail(s, format!("streaming does not agree with loading ({}): {}", loaded, e), class_prefix);
+	}
+	let heard = p.out.iter().filter(|f| f.0 != 0.0 || f.1 != 0.0).count();
+	if p.idle_timeout || !p.stopped {
+		TERMINATION_FAILURES.fetch_add(1, Ordering::SeqCst);
+		fail(
+			s,
+			format!(
+				"HANG: the stream never came to an end: after {} non-silent frames (the file holds {} valid frames, its header announces {}) nothing but silence was rendered for {} s of wall time ({} frames rendered), the sound is not Stopped and no error can be popped (error: {:?}); decoder released after dropping handle and manager: {} (the process used {} ms CPU in the {} ms waited for that)",
+				heard,
+				valid.len(),
+				p.num_frames,
+				idle,
+				p.out.len(),
+				p.error,
+				p.released,
+				p.wait_cpu_ms,
+				p.wait_wall_ms
+			),
+			class,
+		);
+		return;
+	}
+	if !p.released {
+		TERMINATION_FAILURES.fetch_add(1, Ordering::SeqCst);
+		fail(
+			s,
+			format!("the sound stopped (error: {:?}) but its decoder was not released within 2 s of dropping the handle and the manager: the decoder thread is still alive ({} ms CPU in {} ms)", p.error, p.wait_cpu_ms, p.wait_wall_ms),
+			class,
+		);
+	}
+}
+
 #[derive(Clone, Copy, Debug, PartialEq)]
 enum Damage {
 	Frame(Defect),
@@ -1257,33 +1391,27 @@ fn check_flac_bad(s: &mut Session, sp: &FlSpec, frames: &[FlFrame], orig: &[(f32
 	if !stream || !rate_exact(sp.rate) {
 		return;
 	}
-	let p = stream_play(&bytes, sp.rate, 0, &[], 4096);
-	s.eval_only("flac_stream_malformed");
-	let sdesc = format!("{} -- streamed", desc);
-	if matches!(p.open, Load::Panic(_) | Load::Hang) || p.hang {
-		let c = if matches!(dmg, Damage::Frame(Defect::WastedFlag(_))) && p.open.short().contains("subtract with overflow") { Some("flac_wasted_bits_not_validated") } else { None };
-		match c {
-			Some(c) => report_class(s, sdesc, format!("streaming gave {} (loading: {})", p.open.short(), got.short()), c),
-			None => s.fail(sdesc, format!("streaming gave {} (loading: {})", p.open.short(), got.short()), None),
-		}
-		return;
-	}
-	if !matches!(p.open, Load::Ok { .. }) {
-		return; // an error value
-	}
+	s.count("flac_stream_malformed");
 	let valid: Vec<(f32, f32)> = match &got {
 		Load::Ok { frames, .. } => frames.clone(),
 		_ => orig[..before[k]].to_vec(),
 	};
-	let pp = Played { open: p.open.clone(), num_frames: p.num_frames, out: p.out.clone(), issued_at: vec![], error: p.error.clone(), stopped: false, hang: false };
-	if let Err(e) = match_stream(&valid, 0, &[], &pp) {
-		let what = format!("streaming does not agree with loading ({}): {}", got.short(), e);
-		if class_a {
-			report_class(s, sdesc, what, "flac_damaged_frame_skipped");
-		} else {
-			s.fail(sdesc, what, None);
-		}
-	}
+	// a wasted-bits count above the sample size panics on the decoder thread (F44): the thread is gone
+	// without an error and the sound waits for ever
+	let panics = match dmg {
+		Damage::Frame(Defect::WastedFlag(_)) => matches!(wasted_reading(sp, &frames[k], &bytes[offs[k]..offs[k + 1]]), Wasted::TooMany(w) if w > sp.bps),
+		_ => false,
+	};
+	check_termination(
+		s,
+		format!("{} -- streamed", desc),
+		&bytes,
+		sp.rate,
+		&valid,
+		&got.short(),
+		if panics { Some("flac_wasted_bits_not_validated") } else { None },
+		if class_a { Some("flac_damaged_frame_skipped") } else { None },
+	);
 }
 
 fn run_flac(s: &mut Session, rng: &mut Rng, args: &Args, mul: u64) {
@@ -1783,7 +1911,7 @@ pub fn run(args: &Args) {
 				}
 				// streaming plays what the header announces: the loaded frames must be its prefix,
 				// and nothing but silence may follow
-				let mut pp = Played { open: p.open.clone(), num_frames: p.num_frames, out: p.out.clone(), issued_at: vec![], error: None, stopped: false, hang: false };
+				let mut pp = Played { open: p.open.clone(), num_frames: p.num_frames, out: p.out.clone(), issued_at: vec![], error: None, stopped: false, hang: false, idle_timeout: false, released: true, wait_cpu_ms: 0, wait_wall_ms: 0 };
 				pp.stopped = false;
 				if let Err(e) = match_stream(frames, 0, &[], &pp).map(|_| ()) {
 					s.fail(desc, format!("streaming differs from loading: {}", e), None);
@@ -1793,6 +1921,68 @@ pub fn run(args: &Args) {
 	}
 
 	lap("corruptions done");
+	// ---------- (c') truncated files, streamed to the END: the stream must terminate ------------------
+	// the length fields of the header are left as they were (an interrupted copy): the header announces
+	// more frames than the file holds
+	{
+		let mut cases: Vec<(Fmt, u16, u32, usize, usize)> = vec![
+			(Fmt::I16, 1, 8000, 6000, 3500),    // the data runs out inside the decoder's first burst
+			(Fmt::I16, 2, 48000, 24000, 20000), // ... after the 16384-frame ring was filled once
+			(Fmt::U8, 1, 44100, 1152, 1151),
+			(Fmt::I24, 2, 44100, 1300, 1152),   // exactly at a packet boundary of the WAV reader
+		];
+		for &fmt in &FMTS {
+			let announced = 200 + rng.below(3000) as usize;
+			cases.push((fmt, 1 + rng.below(2) as u16, *rng.pick(&[8000u32, 22050, 44100, 48000]), announced, rng.below(announced as u64) as usize));
+		}
+		for (fmt, ch, sr, announced, present) in cases {
+			let w = fmt.width();
+			// index-like content: never silent, so that the end of the audio can be told from silence
+			let samples: Vec<i128> = (0..announced * ch as usize)
+				.map(|i| match fmt {
+					Fmt::F32 => (0.25f32 + (i % 1000) as f32 / 4096.0).to_bits() as i128,
+					Fmt::F64 => (0.25f64 + (i % 1000) as f64 / 4096.0).to_bits() as i128,
+					Fmt::U8 => (1 + i % 100) as i128,
+					_ => (100 + (i * 37) % 20000) as i128,
+				})
+				.collect();
+			let mut b = encode(fmt, ch, sr, &samples);
+			// cut in the middle of a frame as well as at a frame boundary
+			let extra = if rng.chance(1, 2) { rng.below((w * ch as usize) as u64) as usize } else { 0 };
+			b.truncate(44 + present * w * ch as usize + extra);
+			let st = load_static(&b);
+			let valid = match &st {
+				Load::Ok { frames, .. } => frames.clone(),
+				_ => ref_frames(fmt, ch, &b[44..]),
+			};
+			let desc = format!(
+				"WAV {:?} ch={} rate={} whose header announces {} frames, cut to {} bytes ({} whole frames present; stale RIFF/data length fields){} -- streamed to the end",
+				fmt,
+				ch,
+				sr,
+				announced,
+				b.len(),
+				present,
+				if b.len() <= 400 { format!(", file {}", hex(&b)) } else { format!(
+						", fnv {:#x}; interleaved sample i = {}",
+						fnv(&b),
+						match fmt {
+							Fmt::F32 | Fmt::F64 => "0.25 + (i mod 1000)/4096",
+							Fmt::U8 => "1 + i mod 100",
+							_ => "100 + (37 i mod 20000)",
+						}
+					) }
+			);
+			check_termination(&mut s, desc, &b, sr, &valid, &st.short(), None, None);
+		}
+		// and an intact file through the same monitor: natural end, decoder released
+		let samples: Vec<i128> = (0..3000).map(|i| (100 + (i * 37) % 20000) as i128).collect();
+		let b = encode(Fmt::I16, 1, 8000, &samples);
+		if let Load::Ok { frames, .. } = load_static(&b) {
+			check_termination(&mut s, "intact WAV I16 mono 8000 Hz 3000 frames -- streamed to the end".into(), &b, 8000, &frames, "Ok", None, None);
+		}
+	}
+	lap("stream termination (truncated WAV) done");
 	// ---------- (e) a second format with a model: the FLAC subset ---------------------------------
 	// (the stream of util::Rng for seed s+2 is the stream for seed s two draws later, and the two can
 	// fall into step again: the FLAC cases get a generator whose state also depends on the seed itself)
